@@ -7,6 +7,7 @@ let dispatch (line : string) : string =
   | "wr" :: rest -> S_wr.run rest
   | "tx" :: rest -> S_tx.run rest
   | "pa" :: rest -> S_pa.run rest
+  | "rn" :: rest -> S_rn.run rest
   | s :: _ -> failwith ("unknown stream " ^ s)
   | [] -> ""
 
